@@ -353,3 +353,24 @@ M('c18-comment-returns-token', 'C18', 'C18.R2', LEX, '    r""" \\043.* """\n    
 B('c18-break-on-none', 'C18', SQP, "            if t is None:\n                return\n            if t.type == 'NAME':", "            if t is None:\n                break\n            if t.type == 'NAME':")
 B('c18-local-name', 'C18', SQP, LN_FILTER, "            if t.type == 'NAME':\n                name = t.value\n                yield name")
 B('c18-inverted-test', 'C18', SQP, LN_FILTER, "            if t.type != 'NAME':\n                continue\n            yield t.value")
+
+# =============================================================================== C13
+M('c13-shuffle-in-place', 'C13', 'C13.R1', FUN, "    copied = copy.copy(container)\n    random.shuffle(copied)\n    return copied", "    random.shuffle(container)\n    return container")
+M('c13-sorted-in-place', 'C13', 'C13.R1', FUN, "        return list(sorted(container, key=key, reverse=reverse))", "        container.sort(key=key, reverse=reverse)\n        return container")
+M('c13-reversed-in-place', 'C13', 'C13.R1', FUN, "        return list(reversed(container))", "        container.reverse()\n        return list(container)")
+M('c13-get-pops', 'C13', 'C13.R1', FUN, "    return container.get(key, default)", "    return container.pop(key, default)")
+M('c13-pretty-sorts-dict', 'C13', 'C13.R1', FUN,
+  "        return sep.join([f'{k}: {v}' for k, v in value.items()])",
+  "        for k in sorted(value):\n            value[k] = value.pop(k)\n        return sep.join([f'{k}: {v}' for k, v in value.items()])")
+M('c13-sum-drains', 'C13', 'C13.R1', FUN, "        return sum(value)", "        total = 0\n        while value:\n            total += value.pop()\n        return total")
+M('c13-map-writes-back', 'C13', 'C13.R1', FUN,
+  "        return [\n            f(v) for v in container\n        ]", "        for i, v in enumerate(container):\n            container[i] = f(v)\n        return container")
+M('c13-keys-via-helper-mutation', 'C13', 'C13.R1', FUN, "def keys(value: Any) -> list:\n    return list(value.keys())",
+  "def _norm(d):\n    d.setdefault('_', None)\n    return d\n\n\ndef keys(value: Any) -> list:\n    return list(_norm(value).keys())")
+M('c13-raw-list-sort-entry', 'C13', 'C13.R1', FUN, "    'sorted': _sorted,", "    'sorted': _sorted,\n    'sort': list.sort,")
+M('c13-enumerate-appends', 'C13', 'C13.R1', FUN, "    return list(enumerate(container))", "    container += []\n    return list(enumerate(container))")
+
+B('c13-mutate-local-copy', 'C13', FUN, "        return list(reversed(container))", "        out = list(container)\n        out.reverse()\n        return out")
+B('c13-build-with-append', 'C13', FUN, "    return list(value.keys())", "    out = []\n    for k in value:\n        out.append(k)\n    return out")
+B('c13-sorted-copy-sort', 'C13', FUN, "        return list(sorted(container, key=key, reverse=reverse))", "        out = list(container)\n        out.sort(key=key, reverse=reverse)\n        return out")
+B('c13-new-pure-entry', 'C13', FUN, "    'lower': str.lower,", "    'lower': str.lower,\n    'capitalize': str.capitalize,")
